@@ -112,6 +112,7 @@ func verifH_C13_packet() {
 		st1, _ := verifExState(subDone)
 		verifAssert(st1 == 2, "C11: pending subscribe not released (exactly once) by the connection reset")
 		o.observe("C13")
+		verifNextConnectionWorks(c, o.store, "C13")
 		verifReach("violation")
 	}
 	legitThenEOF := func(tag string) {
